@@ -50,4 +50,10 @@ MC_CfgC01 == {[Base EXCEPT !.thr = t, !.keepLess = kl, !.inverse = iv, !.disable
 MC_CfgC02 == {[Base EXCEPT !.thr = t, !.keepLess = kl, !.inverse = iv, !.removeEmpty = re] :
                  t \in {<<0, 1>>, <<1, 2>>, <<2, 3>>, <<1, 1>>}, kl \in B, iv \in B, re \in B}
 MC_CfgC04 == MC_CfgQuick \cup MC_CfgOr \cup MC_CfgTargets
+\* permutation mode: small universe, every ordering of every subset; both tie-break salts; the cap makes order matter
+MC_Uperm == <<
+  <<a, T, CC1>>, <<b, T, CC1>>, <<x, T, CC1>>, <<b, T, CD1>>,
+  <<a, "ex:p", b>>, <<a, "ex:p", x>>, <<a, "ex:p", s1>>, <<b, "ex:p", a>>, <<b, "ex:p", s1>>, <<x, "ex:p", a>>
+>>
+MC_CfgPerm == {[Base EXCEPT !.keepLess = kl, !.salt = sa, !.thr = t, !.inverse = iv] : kl \in B, sa \in {0, 1}, t \in {<<0, 1>>, <<1, 2>>}, iv \in B}
 =============================================================================
